@@ -29,6 +29,7 @@ def run(check: Check) -> None:
     for cls in c08.ACTIVATIONS[1:]:  # the selective methods hand the same three operators of the block to the rules they fire
         activation_semantics(check, cls, ("conjunction", "disjunction", "implication") + (("accumulated",) if cls in ("First", "Last", "Threshold") else ()))
     wiring.p3_weight(check)
+    wiring.engine_configure_semantics(check)  # the block's operators / the variable's aggregation and defuzzifier are the ones Engine.configure was given
     wiring.p4_trigger(check)
     from .consequent_sem import consequent_semantics
 
